@@ -11,7 +11,12 @@ RULE = ("exhaustive: every end cause (client close, kick, external Close, heartb
         "post-mortem pokes (push, data, kick, tick, Close on the dead session), and without the final flush; every ORDERED PAIR of causes at "
         "every stage; every non-empty SET of the four closer operations issued concurrently from separate goroutines at every stage, also "
         "concurrently with releasing the parked reader; heartbeat limit at 0/1/19999/20000/20001/40000 ms; id counter at 2^32-3..2^32-1/0/1 "
-        "(wrap, skip 0) and an id reused while live; heartbeat() with its REAL ticker (2 ms); random sequences of 3-60 operations over 1-3 "
+        "(wrap, skip 0) and an id reused while live; heartbeat() with its REAL ticker (2 ms); SEND QUEUE AT CAPACITY: client stops reading, "
+        "writer parked in conn.Write, 10026 pushes from a goroutine (9999 fill chSend, the 10001st parks), optionally a heartbeat send and the "
+        "owning service's PushMsg parked too, then every end cause, then pushes to the dead session and to a bystander; exactly 9999/10000/10001/10002 "
+        "pushes with and without a kick; CONNCHAN AT CAPACITY: real TCPAcceptor + pomelo.StartAcceptor with OnSessionCreate gated (service busy), "
+        "1/5/99/100/101/130 clients connected one after the other, gate opened, every client handshakes and sends its own number, closes; "
+        "real TCP end-to-end scenarios; random sequences of 3-60 operations over 1-3 "
         "connections (packets of all 10 classes, holds/releases, partial front drains, ticks, pushes to live/dead/unknown ids). "
         "Non-trivial = the owning service observed at least one session removal; distinct = distinct op sequences.")
 TRUSTED_BASE = [
@@ -25,8 +30,11 @@ TRUSTED_BASE = [
     "PacketDecoder wrapper (the only place a reader is held), recording IClientSessionImpl / IClientSession proxy / ISessionsHandler, "
     "goroutine census by runtime.Stack, virtual clock common.VerifSetNowMs, hooks VerifHeartbeatTick (tick body) and VerifSetNextId; "
     "bin/check.py JSON->Coq term printer",
-    "modelled not verified: net.Conn (buffered, TCP-like), sche.Sche (a FIFO channel drained by one goroutine), time.Ticker "
-    "(exercised for real only in the real-ticker cases), chSend capacity 9999 (never full), logger",
+    "modelled not verified: net.Conn (buffered, TCP-like; a Write to a client that stopped reading parks, and fails once that client "
+    "has closed), sche.Sche (a FIFO channel drained by one goroutine; its capacity 999 enters only as the gate 'OnSessionCreate's Post blocks'), "
+    "time.Ticker (exercised for real only in the real-ticker cases), the kernel's listen backlog (FIFO), logger",
+    "parked senders are observed by a goroutine census (stack contains ClientSession.pushToSend, state 'chan send'); the order in which Go "
+    "serves several senders parked on one channel is left to the schedule in the model",
     "MEASURED, not proved (property is partial): goroutines released (census of goroutines inside read/write/heartbeat = model's count of "
     "unfinished threads at the end of every case; runtime.NumGoroutine back to its baseline after teardown) and socket released "
     "(conn.Close called exactly once, peer end sees EOF)",
@@ -38,6 +46,9 @@ ASSUMPTIONS = [
     "ws_acceptor.go is not driven (its GetNextMessage differs only in framing errors, which are the same packet class); oversize packets "
     "cannot be expressed on the wire: a 3-byte length never exceeds codec.MaxPacketSize, ParseHeader's size check is dead code",
     "the owning service processes posted closures one at a time in channel order (sche contract)",
+    "the scheduler queue (capacity 999) is never full when a Msg or a Remove is posted: Post from the read loop / from inside Close() is a "
+    "non-blocking step in the model (a full queue there would park Close() while it holds the session mutex - not modelled, not exercised); "
+    "only OnSessionCreate's Post is allowed to block (gate)",
     "a write to a connection whose peer closed succeeds (TCP-like); only injected failures and a locally closed connection make Write fail",
 ]
 TECHNIQUE = ("Coq proof (interleaving transition system of any number of connections with read/write/heartbeat/closer threads and the front's "
